@@ -628,8 +628,17 @@ class unyt_array(np.ndarray):
                 dtype = input_array.dtype
             obj = input_array.view(type=cls, dtype=dtype)
             obj.units = input_units
-            if registry is not None:
-                obj.units.registry = registry
+            if registry is not None and registry is not input_units.registry:
+                # bind a new unit object to the requested registry: the one
+                # that was passed in may be shared (e.g. ``unyt.m``)
+                obj.units = Unit(
+                    input_units.expr,
+                    input_units.base_value,
+                    input_units.base_offset,
+                    input_units.dimensions,
+                    registry,
+                    input_units._latex_repr,
+                )
             obj.name = name
             return obj
         if isinstance(input_array, unyt_array):
